@@ -544,6 +544,13 @@ def rule_f(ctx, ix):
                 for x in sides:
                     if isinstance(x, ast.Subscript) and isinstance(x.slice, ast.Constant) and isinstance(x.slice.value, int):
                         seen.add(x.slice.value)
+    for c in ast.walk(g.node):
+        # `method_instance in (value[1], value[3])`
+        if isinstance(c, ast.Compare) and len(c.ops) == 1 and isinstance(c.ops[0], (ast.In, ast.NotIn)) and isinstance(c.left, ast.Name) \
+                and c.left.id == p and isinstance(c.comparators[0], (ast.Tuple, ast.List, ast.Set)):
+            for x in c.comparators[0].elts:
+                if isinstance(x, ast.Subscript) and isinstance(x.slice, ast.Constant) and isinstance(x.slice.value, int):
+                    seen.add(x.slice.value)
     for i in sorted(pos):
         ctx.ob(R, '%s entry[%d]' % (g.construct, i), 'the dead object is compared with entry[%d] of every subscription' % i, i in seen,
                detail='HubCallbackContainer._auto_remove never compares the collected object with entry[%d] of the stored subscription, where '
